@@ -2,7 +2,7 @@
 from .. import conncheck
 
 SERVER = ['eof', 'ping', 'ping-empty', 'ping-125', 'ping-high', 'ping-ping', 'two', 'text', 'frag-text', 'frag-cont', 'frag-end',
-          'ping-text-close', 'close-1000', 'ping!fail', 'silence', 'ping-then-bad']
+          'ping-text-close', 'close-1000', 'ping!fail', 'silence', 'ping-then-bad', 'ctext', 'cfrag-text']
 APPS = ['send_text', 'send_pong', 'close']
 
 
@@ -36,15 +36,15 @@ class C14(conncheck.ConnCheck):
         for ap in (True, False):
             if tier == 'quick':
                 for app in APPS:
-                    out.append({'name': 'q/%s/%s' % (ap, app), 'server': SERVER, 'handshake': ['hs-ok', 'hs-with-frame', 'hs-deflate'], 'app': [app],
+                    out.append({'name': 'q/%s/%s' % (ap, app), 'server': SERVER, 'handshake': ['hs-ok', 'hs-with-frame', 'hs-deflate', 'hs-deflate-nct'], 'app': [app],
                                 'depth': d, 'max_dev': 1, 'auto_pong': ap})
             else:
                 for i, a in enumerate(APPS):
                     for b in APPS[i:]:
-                        out.append({'name': 't/%s/%s+%s' % (ap, a, b), 'server': SERVER, 'handshake': ['hs-ok', 'hs-with-frame', 'hs-deflate'],
+                        out.append({'name': 't/%s/%s+%s' % (ap, a, b), 'server': SERVER, 'handshake': ['hs-ok', 'hs-with-frame', 'hs-deflate', 'hs-deflate-nct'],
                                     'app': [a] if a == b else [a, b], 'depth': d, 'max_dev': 2, 'auto_pong': ap})
         for ap in (True, False):
-            out.append({'name': 'tls/%s' % ap, 'url': 'wss://example.com/x', 'server': SERVER, 'handshake': ['hs-ok', 'hs-deflate'], 'app': APPS[:1],
+            out.append({'name': 'tls/%s' % ap, 'url': 'wss://example.com/x', 'server': SERVER, 'handshake': ['hs-ok', 'hs-deflate-nct'], 'app': APPS[:1],
                         'depth': d if tier == 'thorough' else 3, 'max_dev': 1, 'auto_pong': ap})
         return out
 
